@@ -466,6 +466,33 @@ def run(repo: Repo, chk: Check, thorough: bool = False) -> None:
                             next(k.value for k in c.keywords if k.arg == 'href').id in urlvars for c in href)
     chk.ob('R11.5', 'pydoctor.linker.taglink :: href is the (shortened) object url', ok, 'href=url with url = o.url' if ok else
            'href is not built from Documentable.url', tl.loc)
+    # ... and what the callers pass as "the page this link is written on": where it is the url of an object, it is the url of a PAGE - `<x>.url` of a
+    # page object or `<x>.page_object.url` - never the url of a relative of the documented object (`.module.url`, `.parent.url`): on a class page
+    # `documented.module.url` is the module's page, and a link to a function of that module is shortened to `#func`, an anchor the class page lacks
+    n_pu = 0
+    for f in sorted(repo.funcs.values(), key=lambda g: g.qn):
+        if '.test' in f.mod.name or not f.mod.name.startswith('pydoctor.templatewriter'):
+            continue
+        for c in calls_in(f):
+            if call_name(c) != 'taglink' or len(c.args) < 2:
+                continue
+            pu = c.args[1]
+            if not (isinstance(pu, ast.Attribute) and pu.attr == 'url'):
+                continue
+            n_pu += 1
+            chain = []
+            x = pu.value
+            while isinstance(x, ast.Attribute):
+                chain.append(x.attr)
+                x = x.value
+            rel = [a for a in chain if a in ('module', 'parent', 'parentMod', 'definingMod')]
+            okpu = not rel
+            chk.ob('R11.5', f'{f.qn} :: the page a link is shortened against is a page, not a relative of the documented object', okpu,
+                   f'`{norm(pu)}`' if okpu else
+                   f'`{norm(pu)}` is the page of the `{rel[0]}` of the object: on the page of a class the links to members of its module are shortened to a bare '
+                   '`#name`, an anchor that only exists on the module page', repo.loc(f.mod, c))
+    if n_pu < 4:
+        raise AnalysisError(f'R11.5: {n_pu} taglink calls whose page is the url of an object found in templatewriter (4 confirmed)')
     # the page context under which an annotation link is shortened is the annotated object itself (the link is emitted on ITS page),
     # not its parent / module: `#name` would otherwise be emitted on a page that has no such anchor
     al = repo.cls('pydoctor.linker._AnnotationLinker')
